@@ -1190,6 +1190,28 @@ MUTANTS = [
         # Make sure the wrapped instances""")),
     M("wrap-getattr-inverted", ["C16"], ["R-WRAP-DISPATCH"],
       (CW, """        if attr not in ["_obj", "_keep_wrapper"]:""", """        if attr in ["_obj", "_keep_wrapper"]:""")),
+    M("cpu-cgroup-v2-test-inverted", ["C17"], ["R-CPU-HELPERS"],
+      (CX, """    if os.path.exists(cpu_max_fname):""", """    if not os.path.exists(cpu_max_fname):""")),
+    M("cpu-cgroup-v1-needs-only-quota", ["C17"], ["R-CPU-HELPERS"],
+      (CX, """    elif os.path.exists(cfs_quota_fname) and os.path.exists(cfs_period_fname):""", """    elif os.path.exists(cfs_quota_fname) or os.path.exists(cfs_period_fname):""")),
+    M("cpu-affinity-test-inverted", ["C17"], ["R-CPU-HELPERS"],
+      (CX, """    if hasattr(os, "sched_getaffinity"):""", """    if not hasattr(os, "sched_getaffinity"):""")),
+    M("launch-finaliser-test-inverted", ["C20"], ["R-EXITCODE"],
+      (PP, """            if parent_r is not None:
+                util.Finalize(self, os.close, (parent_r,))""", """            if parent_r is None:
+                util.Finalize(self, os.close, (parent_r,))""")),
+    M("launch-child-ends-not-closed", ["C20", "C02"], ["R-EXITCODE"],
+      (PP, """                if fd is not None:
+                    os.close(fd)""", """                if fd is None:
+                    os.close(fd)""")),
+    M("poll-returncode-test-inverted", ["C02", "C20"], ["R-EXITCODE"],
+      (PP, """    def poll(self, flag=os.WNOHANG):
+        if self.returncode is None:""", """    def poll(self, flag=os.WNOHANG):
+        if self.returncode is not None:""")),
+    M("poll-waitpid-handler-narrow", ["C02"], ["R-EXITCODE"],
+      (PP, """                    pid, sts = os.waitpid(self.pid, flag)
+                except OSError:""", """                    pid, sts = os.waitpid(self.pid, flag)
+                except InterruptedError:""")),
     # ------------------------------------------------------- R-SCN-* (polarity)
     M("scn-wakeup-inverted", ["C01", "C02", "C05"], ["R-SCN-WAKEPRIM"],
       (PE, """    def wakeup(self):
